@@ -1067,7 +1067,7 @@ func simpleMiddlewareHandleSend(
 }
 
 func BuildMiddlewareFromNIP11(nip11 *NIP11) Middleware {
-	if nip11 == nil {
+	if nip11 == nil || nip11.Limitation == nil {
 		return func(h Handler) Handler { return h }
 	}
 
